@@ -67,6 +67,8 @@ impl ParallelArchive {
         filenames
             .par_iter()
             .map(|&filename| {
+                #[cfg(wowrs_verif)]
+                crate::verif::verif_yield("extract_files_parallel");
                 // Each thread opens its own file handle
                 let data = self.read_file_with_new_handle(filename)?;
                 Ok((filename.to_string(), data))
@@ -90,6 +92,8 @@ impl ParallelArchive {
             .par_iter()
             .filter(|name| predicate(name))
             .map(|filename| {
+                #[cfg(wowrs_verif)]
+                crate::verif::verif_yield("extract_matching_parallel");
                 let data = self.read_file_with_new_handle(filename)?;
                 Ok((filename.clone(), data))
             })
@@ -107,6 +111,8 @@ impl ParallelArchive {
         filenames
             .par_iter()
             .map(|&filename| {
+                #[cfg(wowrs_verif)]
+                crate::verif::verif_yield("process_files_parallel");
                 let data = self.read_file_with_new_handle(filename)?;
                 processor(filename, data)
             })
@@ -151,6 +157,8 @@ impl ParallelArchive {
         let results: Result<Vec<_>> = chunks
             .par_iter()
             .map(|chunk| {
+                #[cfg(wowrs_verif)]
+                crate::verif::verif_yield("extract_files_batched");
                 // Open one archive handle per batch
                 let mut archive = Archive::open(&self.path)?;
 
@@ -276,6 +284,8 @@ fn extract_with_config_batched<P: AsRef<Path>>(
         let batch_results: Result<Vec<_>> = chunks
             .par_iter()
             .map(|chunk| {
+                #[cfg(wowrs_verif)]
+                crate::verif::verif_yield("extract_with_config_batched");
                 // Open one archive handle per batch to limit resource usage
                 let mut archive_handle = Archive::open(archive.path.as_path())?;
 
@@ -331,6 +341,8 @@ fn extract_with_config_unbatched<P: AsRef<Path>>(
             Ok(filenames
                 .par_iter()
                 .map(|&filename| {
+                    #[cfg(wowrs_verif)]
+                    crate::verif::verif_yield("extract_with_config_skip");
                     let result = archive.read_file_with_new_handle(filename);
                     (filename.to_string(), result)
                 })
@@ -340,6 +352,8 @@ fn extract_with_config_unbatched<P: AsRef<Path>>(
             let results: Result<Vec<_>> = filenames
                 .par_iter()
                 .map(|&filename| {
+                    #[cfg(wowrs_verif)]
+                    crate::verif::verif_yield("extract_with_config_failfast");
                     let data = archive.read_file_with_new_handle(filename)?;
                     Ok((filename.to_string(), Ok(data)))
                 })
